@@ -289,6 +289,11 @@ def explore_run(pid, run, tier, work, nproc, log):
         break
     for key, vs in groups.items():
         vs.sort(key=lambda v: len(v['choices']))
+        if key[0] == 'require':
+            # a harness-side invariant (vf_require) does not hold: the run cannot decide the property on this tree; never a VIOLATION
+            res['problems'].append('HARNESS-INVARIANT: %s on %d path(s) of run %s -- the invariant this run is relative to does not describe this tree; the run decides nothing (choices of the shortest: %s)'
+                                   % (vs[0]['violation']['msg'], len(vs), run.name, json.dumps(vs[0]['choices'], default=str)[:300]))
+            continue
         for v in vs[:3]:
             k = match_known(known, pid, run, v)
             rec = {'run': run.name, 'harness': run.harness, 'defines': run.defines, 'std': run.std, 'exc': run.exc, 'own_new': run.own_new, 'replay': v, 'count': len(vs)}
